@@ -261,11 +261,19 @@ func (g *generator) walkAllOf(schema *openapi3.Schema) (ast.Type, error) {
 }
 
 func (g *generator) walkOneOf(schema *openapi3.Schema) (ast.Type, error) {
+	if len(schema.OneOf) == 0 {
+		return ast.Type{}, fmt.Errorf("oneOf with no branches")
+	}
+
 	discriminator, mapping := g.getDiscriminator(schema)
 	return g.walkDisjunctions(schema.OneOf, discriminator, mapping)
 }
 
 func (g *generator) walkAnyOf(schema *openapi3.Schema) (ast.Type, error) {
+	if len(schema.AnyOf) == 0 {
+		return ast.Type{}, fmt.Errorf("anyOf with no branches")
+	}
+
 	discriminator, mapping := g.getDiscriminator(schema)
 	return g.walkDisjunctions(schema.AnyOf, discriminator, mapping)
 }
